@@ -105,6 +105,8 @@ type handOpts struct {
 	SpareBlockSize bool
 	// BigChunks: one file in six has chunks of 9000 .. 70000 bytes (tens to hundreds of KiB in all) instead of 1 .. 5
 	BigChunks bool
+	// NoFileSizeOK: interior nodes may omit FileSize (it is optional) while keeping their BlockSizes
+	NoFileSizeOK bool
 }
 
 func genHandFileOpt(t *rapid.T, o handOpts) (root *mnode, data []byte, writer, desc string) {
@@ -128,7 +130,7 @@ func genHandFileOpt(t *rapid.T, o handOpts) (root *mnode, data []byte, writer, d
 	// (malformed per the UnixFS spec but tolerated by the reader: only generated where correctness of the bytes is the subject,
 	// not request order or laziness)
 	noBlockSizes := allowOldStyle && pbLeaves && rapid.IntRange(0, 2).Draw(t, "noBlockSizes") == 0
-	noFileSize := allowOldStyle && rapid.IntRange(0, 2).Draw(t, "noFileSize") == 0 // FileSize is optional: the length then comes from the links
+	noFileSize := (allowOldStyle || o.NoFileSizeOK) && rapid.IntRange(0, 2).Draw(t, "noFileSize") == 0 // FileSize is optional: the length then comes from the links
 	tsizeStyle := rapid.SampledFrom([]int{0, 0, 1, 2, 3}).Draw(t, "tsizeStyle")
 	spareBlockSize := o.SpareBlockSize && rapid.IntRange(0, 3).Draw(t, "spareBlockSize") == 0
 	oldStyleMixed := false
